@@ -6,7 +6,7 @@
    other topic kinds (Sys/TopicKindsC07.v): p2p, me, fnd, sys. *)
 From Coq Require Import ZArith NArith List Bool.
 From Tinode Require Import Base.Util Pure.Acs Pure.Uid Pure.P2PName Pure.P2PProofs Sys.Topic Sys.TopicTac Sys.TopicMarks Sys.TopicAclC07 Sys.TopicAclC07Proofs
-  Sys.TopicAclC07Inv Sys.TopicAclC07Join Sys.TopicAclC07Own Sys.TopicAclC07Thm Sys.TopicAclC07Witness Sys.TopicKindsC07 Sys.TopicKindsC07Proofs.
+  Sys.TopicAclC07Inv Sys.TopicAclC07Join Sys.TopicAclC07Own Sys.TopicAclC07Thm Sys.TopicAclC07Witness Sys.TopicAclC07BanF Sys.TopicAclC07LoseJF Sys.TopicKindsC07 Sys.TopicKindsC07Proofs.
 Import ListNotations.
 Open Scope Z_scope.
 
@@ -77,7 +77,89 @@ Proof. exact (resubscribe_restores dr nr sm). Qed.
 Theorem c07_sub_limit : forall x h, inv_lim x ->
   Z.of_nat (live_count (st (fst (run dr nr sm x h)))) <= max_subs.
 Proof. intros x h. exact (sub_limit dr nr sm h x). Qed.
+
+(* ---- the attachment table under bans (sessions are attached as sid -> (user, background flag)) ---- *)
+
+(* Bans stick: in every state reached under ANY fault plan by ANY history without the request
+   pattern of finding banned-user-attached, a user whose cached grant lacks J (ban by an approver)
+   - or who has no cache entry any more ({del sub}, {leave unsub}) - has NO attached session,
+   whatever its kind (foreground or background) and however many there were. *)
+Theorem c07_ban_detaches_every_session : forall x h,
+  inv_sm x -> inv_aj x -> no_stale dr nr sm x h ->
+  forall c, ca (fst (run dr nr sm x h)) = Some c ->
+  forall u, (forall p, alookup u (c_users c) = Some p -> is_joiner (p_given p) = false) -> no_sess c u.
+Proof. exact (ban_detaches_run_c07f dr nr sm). Qed.
+
+(* ONE request {set sub} / {del sub} / {leave unsub}, ANY state (so: every step of every history),
+   ANY fault: every session attached before the request is still attached afterwards, or it
+   belongs to the request's target (ban_target_c07f: the named user, the requester for a request
+   about oneself), NO session of the target is attached any more and the session was sent
+   {ctrl 205 evicted} (except the requester's own session at {leave unsub}, which gets the reply;
+   the model's "no skipped session" is session id 0). *)
+Theorem c07_evicted_session_notified : forall f x c o who unsub skip,
+  ca x = Some c -> ban_target_c07f sm c o = Some (who, unsub, skip) ->
+  exists c', ca (fst (step dr nr sm f x o)) = Some c' /\
+    forall sid v b, In (sid, (v, b)) (c_sess c) ->
+      In (sid, (v, b)) (c_sess c') \/
+      (v = who /\ no_sess c' who /\ (sid <> skip -> In (sid, Evicted unsub) (snd (step dr nr sm f x o)))).
+Proof. exact (ban_step_told_c07f dr nr sm). Qed.
+
+(* Losing J detaches: at EVERY step of EVERY history (any fault plan, from any state whose attached sessions
+   belong to cached subscribers), for EVERY request: a user whose effective mode
+   (want & given of the cache entry) had J before the request and lacks it afterwards - ban by an approver,
+   self-ban through {set sub} or {sub set.sub.mode}, {del sub}, {leave unsub}: entry gone - has NO attached
+   session afterwards, foreground or background. *)
+Theorem c07_losing_join_detaches_every_session : forall x h f o c c',
+  inv_sm x -> ca (fst (run dr nr sm x h)) = Some c ->
+  ca (fst (step dr nr sm f (fst (run dr nr sm x h)) o)) = Some c' ->
+  forall v, effj_c07f c v = true -> effj_c07f c' v = false -> no_sess c' v.
+Proof. exact (run_step_losej_c07f dr nr sm). Qed.
 End C07.
+
+(* evictUser itself: every session of the user is detached, of either kind, and each one except the
+   skipped one is told; the sessions of the others stay *)
+Theorem c07_evict_detaches_every_session : forall c u unsub skip c' o, evict_user c u unsub skip = (c', o) ->
+  no_sess c' u /\
+  (forall sid b, In (sid, (u, b)) (c_sess c) -> sid <> skip -> In (sid, Evicted unsub) o) /\
+  (forall sid v b, v <> u -> In (sid, (v, b)) (c_sess c) -> In (sid, (v, b)) (c_sess c')).
+Proof. exact evict_all_c07f. Qed.
+
+(* Self-ban: an ACCEPTED {set sub} about oneself (thisUserSub returns no error), any fault, any state,
+   that leaves the own cached want without J leaves no session of the user attached. *)
+Theorem c07_selfban_detaches_every_session : forall f s c n sid u t mode ch w,
+  (t =? 0)%N || N.eqb t u = true ->
+  snd (this_user_sub f s c n sid u mode false) = SubOk ch ->
+  let h := set_sub f s c n sid u t mode in
+  cwant (h_ca h) u = Some w -> is_joiner w = false -> no_sess (h_ca h) u.
+Proof. exact set_sub_selfban_c07f. Qed.
+
+(* The same through {sub set.sub.mode=<no J>} (from an attached or a not yet attached session): accepted with a
+   changed mode whose want & given lacks J - the requester is not attached and no other session of the user stays. *)
+Theorem c07_selfban_by_sub_detaches_every_session : forall f s c n sid u want bkg w g w',
+  snd (this_user_sub f s c n sid u want (match alookup u (c_users c) with Some _ => false | None => true end)) = SubOk (Some (w, g)) ->
+  is_joiner (N.land g w) = false ->
+  let h := sub_reply f s c n sid u want bkg in
+  cwant (h_ca h) u = Some w' -> is_joiner w' = false -> no_sess (h_ca h) u.
+Proof. exact sub_reply_selfban_c07f. Qed.
+
+(* non-vacuity: user 2 is attached ONLY through two background sessions (online counter 0); the owner
+   sets his grant to RWP: both sessions are detached and both are sent {ctrl 205} *)
+Example c07_ex_ban_background_only :
+  let x3 := fst (run bf_dr_c07f bf_nr_c07f bf_sm_c07f bf_x_c07f bf_h_c07f) in
+  let r := step bf_dr_c07f bf_nr_c07f bf_sm_c07f NoFault x3 bf_ban_c07f in
+  (exists c, ca x3 = Some c /\ In (2%N, (2%N, true)) (c_sess c) /\ In (3%N, (2%N, true)) (c_sess c) /\
+             (forall sid b, In (sid, (2%N, b)) (c_sess c) -> b = true) /\
+             option_map p_online (alookup 2%N (c_users c)) = Some 0 /\
+             ban_target_c07f bf_sm_c07f c bf_ban_c07f = Some (2%N, false, 0%N)) /\
+  (exists c', ca (fst r) = Some c' /\ cgiven c' 2%N = Some 14%N /\ no_sess c' 2%N /\
+              In (2%N, Evicted false) (snd r) /\ In (3%N, Evicted false) (snd r)).
+Proof. exact bf_example_c07f. Qed.
+Example c07_ex_losing_join :
+  let x3 := fst (run bf_dr_c07f bf_nr_c07f bf_sm_c07f bf_x_c07f bf_h_c07f) in
+  inv_sm bf_x_c07f /\
+  exists c c', ca x3 = Some c /\ ca (fst (step bf_dr_c07f bf_nr_c07f bf_sm_c07f NoFault x3 bf_ban_c07f)) = Some c' /\
+    effj_c07f c 2%N = true /\ effj_c07f c' 2%N = false.
+Proof. exact bf_losej_example_c07f. Qed.
 
 (* The full statements are REFUTED by the faithful model; both witnesses are replayed on the
    real code (findings/C07.md). *)
@@ -210,6 +292,12 @@ Print Assumptions c07_wf_reachable.
 Print Assumptions c07_admin_raise_within.
 Print Assumptions c07_no_join_no_attach.
 Print Assumptions c07_resubscribe_restores_grant.
+Print Assumptions c07_ban_detaches_every_session.
+Print Assumptions c07_evicted_session_notified.
+Print Assumptions c07_evict_detaches_every_session.
+Print Assumptions c07_selfban_detaches_every_session.
+Print Assumptions c07_selfban_by_sub_detaches_every_session.
+Print Assumptions c07_losing_join_detaches_every_session.
 Print Assumptions c07_sub_limit.
 Print Assumptions c07_no_join_no_attach_refuted.
 Print Assumptions c07_given_writers_refuted.
